@@ -19,7 +19,7 @@ def run(ctx) -> None:
     ctx.assumptions += ["AT&T operand forms", "regex semantics"]
     ctx.analysed_fn("DerefObject.get_regex", "DerefObject._form_regex_with_some_elem_missing",
                     "DerefObject._get_regex_from_full_deref", "DerefObjectBuilder.build", "PatternNodeDeref.get_regex",
-                    "PatternNodeDerefProperty.get_regex", "DerefHandler.handle", "OperandsParser._process_operand_elem")
+                    "PatternNodeDerefProperty.get_regex", "DerefHandler.handle", "OperandsParser.parse (one operand)")
     res, stats = family_results(ctx, tags=("deref",))
     ctx.extra["skeleton_stats"] = stats
     report(ctx, res, "C06", prefixes=("D1.", "D."), cats=("$deref", "prop"), compile_tags=("deref",))
